@@ -107,8 +107,11 @@ def check_tail(r, st, n, rule):
         return [fail("tail-length", {"observed": len(xs), "expected": m1 * n + 1}, key)]
     sc = max(1.0, max(abs(v) for v in my))
     means = _means(xs, zs, n, rule, m1)
+    # conditioning: abscissae of large magnitude carry one ulp of rounding, which the integrals divide by the sample spacing
+    xsf = [float(v) for v in xs]
+    cond = math.ulp(max(abs(xsf[0]), abs(xsf[-1]))) / min(b - a for a, b in zip(xsf[:-1], xsf[1:]))
     for k in range(m1):
-        if abs(means[k] - my[k]) > 1e-9 * sc:
+        if abs(means[k] - my[k]) > (1e-9 + 64 * cond) * sc:
             return [fail("tail-interval-mean", {"interval": k, "observed": means[k], "expected_transformed_average": my[k]}, key)]
     return []
 
@@ -132,7 +135,9 @@ def check_commute(r, op, st):
         for u, v in zip(pa, pb):
             u, v = np.asarray(u, dtype=float), np.asarray(v, dtype=float)
             sc = max(1.0, float(np.max(np.abs(u)))) if u.size else 1.0
-            if u.shape != v.shape or np.any(np.abs(u - v) > 1e-9 * sc):
+            ax_ = np.asarray(pa[0], dtype=float)
+            cond = math.ulp(float(np.max(np.abs(ax_)))) / float(np.min(np.diff(ax_))) if ax_.size > 1 else 0.0
+            if u.shape != v.shape or np.any(np.abs(u - v) > (1e-9 + 64 * cond) * sc):
                 return [fail("does-not-commute-with-pipeline", {"series": nm, "op_first": [pa[0], pa[1]], "op_last": [pb[0], pb[1]]},
                              dict(key, series=nm))]
     return []
